@@ -17,9 +17,18 @@ import (
 // analysed code means at run time.
 func GlobalWrites(g *GenPkg) []string {
 	info := g.Info
+	// only the variables that generated files declare are guarded: a hand-written file of the package may keep state of its own
+	genFile := map[string]bool{}
+	for _, f := range g.Files {
+		for _, cg := range f.Comments {
+			if cg.Pos() < f.Package && strings.Contains(cg.Text(), "Code generated") {
+				genFile[g.Fset.Position(f.Pos()).Filename] = true
+			}
+		}
+	}
 	pkgVars := map[types.Object]bool{}
 	for _, n := range g.Types.Scope().Names() {
-		if v, ok := g.Types.Scope().Lookup(n).(*types.Var); ok {
+		if v, ok := g.Types.Scope().Lookup(n).(*types.Var); ok && genFile[g.Fset.Position(v.Pos()).Filename] {
 			pkgVars[v] = true
 		}
 	}
